@@ -71,6 +71,12 @@ CHECKS = {
    text="Generated-input search: the statement generator records every table written in a table position (FROM, JOIN, DML targets, any nesting depth), every column reference and every function call it places; ExtractTables/TablesQualified/Columns/ColumnsQualified/Functions and ExtractMetadata must return exactly those sets - nothing missing, nothing extra (aliases, synthetic join names, string contents), no duplicates - and the same sets for a hostile re-layout of the same tokens.",
    note="Trusted: the generator's bookkeeping; unqualified table names are compared on their last part; CTE column lists and FOR UPDATE OF names are accepted either way.",
    design="4/C15"),
+ "C16": dict(
+   technique="property-based testing: metamorphic relation over a payload x position x layout x threshold grid (findings at the canonical position must be contained in the findings at every other position/layout), exhaustive payload x position grid, invariants on counts/thresholds/no-mutation/scan independence",
+   level="exploration",
+   text="Generated-input search plus an exhaustive payload x position grid: each documented payload (3 tautologies, 6 time-delay/dangerous calls, 4 UNION probes) is first scanned as the top-level WHERE condition (must carry its documented class and severity), then at 40 condition/expression/UNION positions up to nesting depth 2, in single- and multi-statement scripts, under random whitespace, letter case and redundant parentheses: the same (pattern, severity) must be reported; raising the minimum severity must filter exactly; counts must equal the list; the tree must not change; A,B,A scans must agree. The text scanner ScanSQL gets the whitespace/case invariance and threshold/count checks.",
+   note="Trusted: the payload catalogue's documented class/severity (from the scanner's own tables/docs); containment on (pattern, severity) pairs, extra findings allowed; comments are not used as layout for the regex scanner.",
+   design="4/C16"),
 }
 
 def main():
